@@ -578,53 +578,79 @@ Definition from_bytes_legacy (data : bytes) : outcome (list rec) :=
 
 End WithUrllib.
 
-(** ** whad/ble/scanning.py: AdvertisingDevicesDB.on_device_found over a sequence of
-    advertisements.  An event is what the method reads from the scapy packet: PDU kind,
-    AdvA, TxAdd, the rssi argument and the re-joined record bytes
+(** ** whad/ble/scanning.py: AdvertisingDevicesDB.on_device_found over a TIMED sequence of
+    advertisements.  An event is the time elapsed since the previous call (milliseconds of
+    the virtual clock the harness installs as [scanning.time]; the clock does not move
+    during a call) and what the method reads from the scapy packet: PDU kind, AdvA, TxAdd,
+    the rssi argument and the re-joined record bytes
     ([b''.join(bytes(record) for record in pkt.data)], scapy is third-party: the harness
-    feeds the model the bytes scapy produced).  Time is frozen (the harness pins
-    [scanning.time]), so the 0.5 s scan-response timeout never elapses: [scanned] is
-    only set by a scan response. *)
+    feeds the model the bytes scapy produced). *)
 Inductive pdu := AdvInd | AdvNonconn | ScanRsp | OtherPdu.
-Record event := { ev_pdu : pdu; ev_addr : N; ev_txadd : N; ev_rssi : N; ev_data : bytes }.
+Record event := { ev_dt : N; ev_pdu : pdu; ev_addr : N; ev_txadd : N; ev_rssi : N; ev_data : bytes }.
 
 (** AdvertisingDevice: the per-address state.  unknown = no entry, waiting = entry with
-    [d_got = false], complete = [d_got = true]. *)
+    [d_got = false], complete = [d_got = true].  [d_ts] = [__timestamp] (creation time),
+    [d_last] = [__last_seen]. *)
 Record device := { d_addr : N; d_type : N; d_rssi : N; d_adv : list rec; d_rsp : option (list rec);
-                   d_got : bool; d_conn : bool; d_scanned : bool; d_reported : bool }.
+                   d_got : bool; d_conn : bool; d_scanned : bool; d_reported : bool;
+                   d_ts : N; d_last : N }.
 Definition set_rssi (r : N) (d : device) : device :=
   {| d_addr := d_addr d; d_type := d_type d; d_rssi := r; d_adv := d_adv d; d_rsp := d_rsp d;
-     d_got := d_got d; d_conn := d_conn d; d_scanned := d_scanned d; d_reported := d_reported d |}.
+     d_got := d_got d; d_conn := d_conn d; d_scanned := d_scanned d; d_reported := d_reported d;
+     d_ts := d_ts d; d_last := d_last d |}.
+(** [seen()] *)
+Definition set_last (now : N) (d : device) : device :=
+  {| d_addr := d_addr d; d_type := d_type d; d_rssi := d_rssi d; d_adv := d_adv d; d_rsp := d_rsp d;
+     d_got := d_got d; d_conn := d_conn d; d_scanned := d_scanned d; d_reported := d_reported d;
+     d_ts := d_ts d; d_last := now |}.
+Definition set_scanned (d : device) : device :=
+  {| d_addr := d_addr d; d_type := d_type d; d_rssi := d_rssi d; d_adv := d_adv d; d_rsp := d_rsp d;
+     d_got := d_got d; d_conn := d_conn d; d_scanned := true; d_reported := d_reported d;
+     d_ts := d_ts d; d_last := d_last d |}.
+(** the tail of [update()]: [if not scanned: if (time() - timestamp) > SCAN_RSP_TIMEOUT (0.5 s)] *)
+Definition timed_out (now : N) (d : device) : bool := 500 <? now - d_ts d.
+Definition check_timeout (now : N) (d : device) : device :=
+  if d_scanned d then d else if timed_out now d then set_scanned d else d.
 (** [set_scan_rsp]: only the first scan response is kept *)
 Definition set_scan_rsp (l : list rec) (d : device) : device :=
   if d_got d then d else
   {| d_addr := d_addr d; d_type := d_type d; d_rssi := d_rssi d; d_adv := d_adv d; d_rsp := Some l;
-     d_got := true; d_conn := d_conn d; d_scanned := true; d_reported := d_reported d |}.
+     d_got := true; d_conn := d_conn d; d_scanned := true; d_reported := d_reported d;
+     d_ts := d_ts d; d_last := d_last d |}.
 Definition mark_reported (d : device) : device :=
   {| d_addr := d_addr d; d_type := d_type d; d_rssi := d_rssi d; d_adv := d_adv d; d_rsp := d_rsp d;
-     d_got := d_got d; d_conn := d_conn d; d_scanned := d_scanned d; d_reported := true |}.
+     d_got := d_got d; d_conn := d_conn d; d_scanned := d_scanned d; d_reported := true;
+     d_ts := d_ts d; d_last := d_last d |}.
 
 (** the dict [__db] in insertion order *)
 Definition find_dev (a : N) (db : list device) : option device := find (fun d => d_addr d =? a) db.
 Definition update_dev (a : N) (f : device -> device) (db : list device) : list device :=
   map (fun d => if d_addr d =? a then f d else d) db.
 
-(** [register_device(device, update)] *)
-Definition register (db : list device) (d : device) (update : bool) : list device * bool :=
+(** [register_device(device, update)]: a known device is [seen()], and when the rssi
+    differs [update(rssi=...)] (new rssi, then the timeout test) *)
+Definition register (now : N) (db : list device) (d : device) (update : bool) : list device * bool :=
   match find_dev (d_addr d) db with
   | None => (db ++ [d], true)
-  | Some dev => if d_rssi dev =? d_rssi d then (db, false)
-                else (update_dev (d_addr d) (set_rssi (d_rssi d)) db, update)
+  | Some dev => if d_rssi dev =? d_rssi d then (update_dev (d_addr d) (set_last now) db, false)
+                else (update_dev (d_addr d)
+                        (fun x => check_timeout now (set_rssi (d_rssi d) (set_last now x))) db, update)
   end.
 
-(** [__apply_scan_rsp_timeout]: scanned and not yet reported devices are reported once *)
-Fixpoint timeouts (db : list device) : list device * list N :=
+(** [__apply_scan_rsp_timeout]: every device not yet scanned gets [update()] (timeout
+    test); scanned and not yet reported devices are marked reported and yielded *)
+Fixpoint timeouts (now : N) (db : list device) : list device * list N :=
   match db with
   | [] => ([], [])
-  | d :: r => let '(r', ys) := timeouts r in
-              if d_scanned d && negb (d_reported d) then (mark_reported d :: r', d_addr d :: ys)
-              else (d :: r', ys)
+  | d :: r => let '(r', ys) := timeouts now r in
+              let d1 := check_timeout now d in
+              if d_scanned d1 && negb (d_reported d1) then (mark_reported d1 :: r', d_addr d :: ys)
+              else (d1 :: r', ys)
   end.
+(** a device the sweep reports now: not reported yet, and scanned (it answered, or a
+    previous [update] saw the timeout) or more than 500 ms after its creation *)
+Definition due (now : N) (d : device) : bool :=
+  (d_scanned d || timed_out now d) && negb (d_reported d).
 Definition memN (a : N) (l : list N) : bool := existsb (N.eqb a) l.
 
 Inductive phase := Unknown | Waiting | Complete.
@@ -650,16 +676,17 @@ Definition filter_none : bool := match filter with Some _ => false | None => tru
 
 (** the three branches of [on_device_found] before the timeout sweep: new database and
     the devices appended so far (their addresses) *)
-Definition handle (db : list device) (ev : event) : outcome (list device * list N) :=
+Definition handle (now : N) (db : list device) (ev : event) : outcome (list device * list N) :=
   let a := ev_addr ev in
   let adv (conn : bool) :=
     o <- parse_adv (ev_data ev) ;;
     match o with
     | Some l =>
         let d := {| d_addr := a; d_type := ev_txadd ev; d_rssi := ev_rssi ev; d_adv := l; d_rsp := None;
-                    d_got := false; d_conn := conn; d_scanned := false; d_reported := false |} in
+                    d_got := false; d_conn := conn; d_scanned := false; d_reported := false;
+                    d_ts := now; d_last := now |} in
         if filter_is a || filter_none then
-          let '(db', r) := register db d updates in Ok (db', if r && updates then [a] else [])
+          let '(db', r) := register now db d updates in Ok (db', if r && updates then [a] else [])
         else Ok (db, [])
     | None => Ok (db, [])
     end in
@@ -680,16 +707,24 @@ Definition handle (db : list device) (ev : event) : outcome (list device * list 
   | OtherPdu => Ok (db, [])
   end.
 
-Definition on_device_found (db : list device) (ev : event) : outcome (list device * list N) :=
-  r <- handle db ev ;;
-  let '(db2, ys) := timeouts (fst r) in
-  Ok (db2, fold_left (fun acc y => if memN y acc then acc else acc ++ [y]) ys (snd r)).
+(** one call at time [now]: (database, returned devices, devices yielded by the sweep) *)
+Definition on_device_found (now : N) (db : list device) (ev : event)
+  : outcome (list device * list N * list N) :=
+  r <- handle now db ev ;;
+  let '(db2, ys) := timeouts now (fst r) in
+  Ok (db2, fold_left (fun acc y => if memN y acc then acc else acc ++ [y]) ys (snd r), ys).
 
-(** a whole scan: the returned device lists of every call, and the final database *)
-Fixpoint scan (db : list device) (evs : list event) : outcome (list device * list (list N)) :=
+(** a whole timed scan from clock value [clock]: final database, the returned device
+    lists of every call, and what the timeout sweep of every call reported *)
+Fixpoint scan (clock : N) (db : list device) (evs : list event)
+  : outcome (list device * list (list N) * list (list N)) :=
   match evs with
-  | [] => Ok (db, [])
-  | ev :: r => x <- on_device_found db ev ;; y <- scan (fst x) r ;; Ok (fst y, snd x :: snd y)
+  | [] => Ok (db, [], [])
+  | ev :: r =>
+      let now := clock + ev_dt ev in
+      x <- on_device_found now db ev ;;
+      y <- scan now (fst (fst x)) r ;;
+      Ok (fst (fst y), snd (fst x) :: snd (fst y), snd x :: snd y)
   end.
 
 End ScanDB.
@@ -800,34 +835,37 @@ Definition check_build (c : list call * url_table * obs_out (list obs * obs_out 
                         && out_eqb bytes_eqb (to_bytes l) (snd lo))
           (build tbl ks) o.
 
-(** scan case: (filter, updates, urlparse table, events, observed: per call the returned
-    addresses or the escaping class; then find_device of each listed address at the end:
-    (address type, rssi, adv records, scan-response records, got_scan_rsp, connectable,
-    scanned, reported)) *)
-Definition dev_obs := (N * N * list obs * option (list obs) * bool * bool * bool * bool)%type.
+(** scan case: (filter, updates, urlparse table, timed events, observed: per call the
+    returned addresses or the escaping class; then find_device of each listed address at the
+    end: (address type, rssi, adv records, scan-response records, got_scan_rsp, connectable,
+    scanned, reported, timestamp ms, last_seen ms)) *)
+Definition dev_obs := (N * N * list obs * option (list obs) * bool * bool * bool * bool * N * N)%type.
 Definition canon_dev (d : device) : dev_obs :=
   (d_type d, d_rssi d, map canon (d_adv d), option_map (map canon) (d_rsp d),
-   d_got d, d_conn d, d_scanned d, d_reported d).
+   d_got d, d_conn d, d_scanned d, d_reported d, d_ts d, d_last d).
 Definition dev_obs_eqb (a b : dev_obs) : bool :=
-  let '(t1, r1, a1, s1, g1, c1, x1, p1) := a in let '(t2, r2, a2, s2, g2, c2, x2, p2) := b in
+  let '(t1, r1, a1, s1, g1, c1, x1, p1, ts1, l1) := a in
+  let '(t2, r2, a2, s2, g2, c2, x2, p2, ts2, l2) := b in
   (t1 =? t2) && (r1 =? r2) && list_eqb obs_eqb a1 a2
   && match s1, s2 with Some u, Some v => list_eqb obs_eqb u v | None, None => true | _, _ => false end
-  && Bool.eqb g1 g2 && Bool.eqb c1 c2 && Bool.eqb x1 x2 && Bool.eqb p1 p2.
+  && Bool.eqb g1 g2 && Bool.eqb c1 c2 && Bool.eqb x1 x2 && Bool.eqb p1 p2 && (ts1 =? ts2) && (l1 =? l2).
 (** run until the first call that raises, as the harness does *)
 Fixpoint scan_obs (urlnorm : text -> url_result) (filter : option N) (updates : bool)
-         (db : list device) (evs : list event) : list device * list (obs_out (list N)) :=
+         (clock : N) (db : list device) (evs : list event) : list device * list (obs_out (list N)) :=
   match evs with
   | [] => (db, [])
   | ev :: r =>
-      match on_device_found urlnorm filter updates db ev with
-      | Ok x => let '(db', o) := scan_obs urlnorm filter updates (fst x) r in (db', ObsOk (snd x) :: o)
+      let now := clock + ev_dt ev in
+      match on_device_found urlnorm filter updates now db ev with
+      | Ok x => let '(db', o) := scan_obs urlnorm filter updates now (fst (fst x)) r in
+                (db', ObsOk (snd (fst x)) :: o)
       | Raise e => (db, [ObsRaise e])
       end
   end.
 Definition check_scan (c : option N * bool * url_table * list event
                            * list (obs_out (list N)) * list (N * option dev_obs)) : bool :=
   let '(filter, updates, tbl, evs, outs, finals) := c in
-  let '(db, o) := scan_obs (lookup_url tbl) filter updates [] evs in
+  let '(db, o) := scan_obs (lookup_url tbl) filter updates 0 [] evs in
   list_eqb (fun m x => match m, x with
                        | ObsOk a, ObsOk b => bytes_eqb a b
                        | ObsRaise e, ObsRaise e' => exn_eqb e e'
